@@ -244,6 +244,34 @@ def run_job(spec):
                               {"phase": name, "kill_point": killed["n"], "after": killed["tag"],
                                "running": killed["running_cmds"], "pending_cleanup": killed["to_be_deleted"],
                                "problem": kind, "detail": detail, "restart": describe(restart, 40)}, rep)
+            # the same crash image restarted under the oldest-event-first schedule, where the
+            # steps that were interrupted advance side by side (a product of an interrupted
+            # planning script is dispatched next to it and re-declared while it runs)
+            if busy and not problems:
+                world2, info2 = run_killed(descs, k, spec["prefix"], base)
+                try:
+                    if info2["killed"] is not None:
+                        r2 = hist.build(world2, descs[-1], {**rcfg, "policy": "fifo"})
+                        acc.evaluations += 1
+                        acc.transitions += r2.nev
+                        bad = None
+                        if not r2.ok():
+                            bad = ("restart-raised", {"fault": r2.fault, "error": r2.error})
+                        elif [r for r in r2.reports if r[0] == "ERROR"]:
+                            bad = ("restart-error-report", [r[1] for r in r2.reports if r[0] == "ERROR"][:3])
+                        elif r2.rc_class != "success":
+                            bad = ("restart-incomplete", {"rc": r2.rc_class})
+                        elif _files_only(r2.fs) != _files_only(ref.fs):
+                            a, b = _files_only(r2.fs), _files_only(ref.fs)
+                            bad = ("files-differ", {x: (a.get(x), b.get(x)) for x in sorted(set(a) | set(b))
+                                                    if a.get(x) != b.get(x)})
+                        if bad:
+                            acc.violation(f"C05|{name}|{bad[0]}|{killed['tag']}|restart-fifo",
+                                          {"phase": name, "kill_point": killed["n"], "after": killed["tag"],
+                                           "running": killed["running_cmds"], "problem": bad[0], "detail": bad[1],
+                                           "restart_policy": "fifo", "restart": describe(r2, 40)}, rep)
+                finally:
+                    world2.destroy()
             acc.outcomes.setdefault(h8([name, restart.rc_class, bool(problems)]), 1)
             acc.sample({"phase": name, "kill_point": killed["n"], "after": killed["tag"],
                         "busy_steps": busy, "restart_started": restart.started})
